@@ -1,27 +1,32 @@
 package vsup
 
 import (
-	"bufio"
+	"bytes"
 	"encoding/json"
 	"os"
 	"sync"
 )
 
 // Trace is an ndjson event log (one JSON object per line) checked by a TLA+ trace specification.
+// Events are kept in memory and written by Close: Emit never makes a system call, so it can be
+// called from an event-loop thread into which system-call faults are being injected.
 type Trace struct {
-	mu sync.Mutex
-	f  *os.File
-	w  *bufio.Writer
-	N  int
+	mu   sync.Mutex
+	path string
+	buf  bytes.Buffer
+	N    int
 }
 
-// OpenTrace creates the trace file.
+// OpenTrace prepares the trace; the file is created by Close.
 func OpenTrace(path string) (*Trace, error) {
-	f, err := os.Create(path)
+	f, err := os.Create(path) // fail early if the location is not writable
 	if err != nil {
 		return nil, err
 	}
-	return &Trace{f: f, w: bufio.NewWriterSize(f, 1<<16)}, nil
+	f.Close()
+	t := &Trace{path: path}
+	t.buf.Grow(1 << 22)
+	return t, nil
 }
 
 // Emit appends one event; the order of Emit calls is the order of the trace.
@@ -31,8 +36,8 @@ func (t *Trace) Emit(ev map[string]any) {
 		panic(err)
 	}
 	t.mu.Lock()
-	t.w.Write(b)
-	t.w.WriteByte('\n')
+	t.buf.Write(b)
+	t.buf.WriteByte('\n')
 	t.N++
 	t.mu.Unlock()
 }
@@ -40,8 +45,5 @@ func (t *Trace) Emit(ev map[string]any) {
 func (t *Trace) Close() error {
 	t.mu.Lock()
 	defer t.mu.Unlock()
-	if err := t.w.Flush(); err != nil {
-		return err
-	}
-	return t.f.Close()
+	return os.WriteFile(t.path, t.buf.Bytes(), 0o644)
 }
